@@ -78,7 +78,7 @@ Definition cpu_view (d : pdoc) : list sview :=
   let raw := map (fun s => {| rs_addrs := leaf_kept (snd s);
                               rs_vals := [wrap_i64 (fst s); wrap_i64 (wrap_i64 (fst s) * period)]; rs_bytes := None |})
                  (pd_samples d) in
-  map (fun s => {| sv_addrs := dedup_leaf (rs_addrs s); sv_vals := rs_vals s; sv_bytes := None |})
+  map (fun s => {| sv_addrs := dedup_leaf (rs_addrs s); sv_vals := rs_vals s; sv_bytes := rs_bytes s |})
       (strip_frame (strip_frame raw)).
 
 (* ---- the observable profile's view ---- *)
